@@ -11,9 +11,17 @@ WORDS = r"(pas+wo?r?d|pass(phrase)?|pwd|token|secrete?)"
 DOC_RE = re.compile(r"(^{0}$|_{0}_|^{0}_|_{0}$)".format(WORDS), re.IGNORECASE)
 
 MATCHING = ["password", "PASSWORD", "Password", "passwd", "pasword", "passsword", "pass", "passphrase", "pwd", "token", "secret", "secrete",
-            "db_password", "password_hash", "my_token_x", "API_TOKEN", "Secret_Key", "x_pwd", "root_pass", "auth_token_value"]
+            "db_password", "password_hash", "my_token_x", "API_TOKEN", "Secret_Key", "x_pwd", "root_pass", "auth_token_value",
+            # the pattern ignores case, wherever the capitals are: inside a word too (seeded change C16-m16 split names at lower→upper boundaries first: `pwD` became `pw_D`)
+            "pwD", "pWd", "toKen", "seCret", "passwD", "db_pwD", "paSs_file", "secretE", "pASSWORD", "tokeN_x", "PassPhrase", "aB_tOkEn"]
 NEAR = ["passwords", "mypassword", "tokens", "secretary", "passw", "pw", "key", "xpwd", "tokenize", "pa_ssword", "passwordx", "username", "host",
-        "pas", "passwrd2", "secret2", "tok_en"]
+        "pas", "passwrd2", "secret2", "tok_en",
+        # camelCase names are NOT split into words by the documented pattern (only `_` separates words)
+        "dbPassword", "myToken", "apiSecretKey", "userPwd", "passwordHash", "tokenValue"]
+# the callee of a call with a matching keyword can be any expression: B106 looks at the keywords only (seeded change C16-m15 skipped every Call whose callee is not a
+# name or attribute chain)
+CALLEES = ["connect", "obj.login", "get_connector()", "HANDLERS['ldap']", "(primary or fallback)", "factory(x).open", "clients[0].login", "(lambda **kw: kw)", "make()()",
+           "super().connect", "(yield_ if a else b)", "registry['a']['b']"]
 LITERALS = ["hunter2", "", "it's", 'say "hi"', "päss", "a\\b", "{x}", "%s", "0.0.0.0", "/tmp/secret", "line1\\nline2", "\U0001F511key"]
 NONLIT = ["get_secret()", "os.environ['P']", "None", "42", "other", "b'bytes'", "f'{x}'", "'a' + b"]
 
@@ -66,6 +74,8 @@ def build_cases(rng, thorough):
             cases.append((f"d[{pylit(nm)}] = {L}\n", exp, dict(pos="subscript", name=nm, lit=lit)))
             # 4 keyword argument
             cases.append((f"connect(host, {nm}={L})\n", E({("B106", None)} if m else set()), dict(pos="kwarg", name=nm, lit=lit)))
+            for cal in (CALLEES if thorough else rng.sample(CALLEES, 2)):
+                cases.append((f"r_ = {cal}(user, {nm}={L})\n", E({("B106", None)} if m else set()), dict(pos="kwarg-callee:" + cal, name=nm, lit=lit)))
             # 5 parameter default
             cases.append((f"def f(a, {nm}={L}):\n    pass\n", E({("B107", None)} if m else set()), dict(pos="default", name=nm, lit=lit)))
             cases.append((f"def f({nm}={L}, /, b=None):\n    pass\n", E({("B107", None)} if m else set()), dict(pos="default-posonly", name=nm, lit=lit)))
